@@ -79,4 +79,34 @@ theorem walk_last (n mjd : Nat) (date last : Nat × Nat × Nat) (h : walk n mjd 
       simpa [stepN] using this
     · cases h
 
+/-! ### the Int-valued model functions themselves, walked over the whole range -/
+
+def toI (d : Nat × Nat × Nat) : Int × Int × Int := ((d.1 : Int), (d.2.1 : Int), (d.2.2 : Int))
+
+/-- one day: the model's decode gives the calendar date, the model of Go's time.Date maps that date to the linear
+day count, the model of Go's Year/Month/Day maps it back, the model's encode gives the MJD -/
+def dayOK (mjd : Nat) (date : Nat × Nat × Nat) : Bool :=
+  decodeYMD (mjd : Int) == toI date
+  && unixOfDate (date.1 : Int) (date.2.1 : Int) (date.2.2 : Int) == ((mjd : Int) - 40587) * 86400
+  && civilFromDays ((mjd : Int) - 40587) == toI date
+  && encodeMJD (date.1 : Int) (date.2.1 : Int) (date.2.2 : Int) == (mjd : Int)
+
+def walkI : Nat → Nat → Nat × Nat × Nat → Bool
+  | 0, _, _ => true
+  | n + 1, mjd, date => dayOK mjd date && walkI n (mjd + 1) (Spec.nextDay date)
+
+theorem walkI_spec (n mjd : Nat) (date : Nat × Nat × Nat) (h : walkI n mjd date = true) :
+    ∀ i, i < n → dayOK (mjd + i) (stepN i date) = true := by
+  induction n generalizing mjd date with
+  | zero => intro i hi; omega
+  | succ n ih =>
+    intro i hi
+    simp only [walkI, Bool.and_eq_true] at h
+    cases i with
+    | zero => simpa [stepN] using h.1
+    | succ j =>
+      have := ih (mjd + 1) (Spec.nextDay date) h.2 j (by omega)
+      have e : mjd + (j + 1) = mjd + 1 + j := by omega
+      rw [e]; simpa [stepN] using this
+
 end Astits.MJD
